@@ -45,7 +45,9 @@ Proof.
       * destruct (items s); inversion Hs; subst s'; clear Hs; cbn; rewrite Hm; cbn; split; [assumption|discriminate].
       * destruct (choose _ _ _) as [[[w ti] lc]|]; [|discriminate].
         destruct (nth_error _ _); inversion Hs; subst s'; clear Hs; cbn; split; [assumption|discriminate].
-    + destruct rem as [|ch rem']; inversion Hs; subst s'; clear Hs; cbn.
+    + destruct (predraw _ _).
+      { destruct (items s); inversion Hs; subst s'; clear Hs; cbn; rewrite Hm; cbn; split; [assumption|discriminate]. }
+      destruct rem as [|ch rem']; inversion Hs; subst s'; clear Hs; cbn.
       * cbn in H1. split; [lia|discriminate].
       * cbn in H1. rewrite app_length in H1. split; [lia|discriminate].
     + destruct (items s).
